@@ -330,6 +330,7 @@ class Interp(object):
         self.sumfacts = {}
         self.nonneg = set()
         self.col_base = {}
+        self.entry_writes = []
         from . import lib
         self.lib = lib
 
@@ -551,6 +552,8 @@ class Interp(object):
             if P.is_pw(base.t) or P.is_pw(newt):
                 raise Unsupported('piecewise tensor update', node)
             base.t = N.fn('upd', base.t, la, lb, newt)
+            self.entry_writes.append({'arr': base, 'pair': (la, lb), 'term': newt,
+                                      'loc': self.loc(node) if node is not None else None})
         elif v.idx[0] == 'reshape':
             inv = {'unflat': 'flat', 'flat': 'unflat', 'col3': 'uncol3'}[v.idx[1]]
             base.t = self.lib.reshape_term(self, newt, inv, v.idx[2], node)
@@ -1476,6 +1479,8 @@ class Interp(object):
             m = Mask(P.Cond.flag('%s%s%s' % (a.label, sym, b.label)), 'scalar')
             if a.label == b.label:
                 return Const(sym in ('<=', '>=', '=='))
+            if sym in ('==', '!=') and self.labels_equal(a.label, b.label) is False:
+                return Const(sym == '!=')
             m.indexcmp = (sym, a.label, b.label)
             return m
         if isinstance(a, Label) and isinstance(b, Label):
